@@ -1926,6 +1926,28 @@ fn run_request(line: &str, out: &mut Out, hist: &mut Stats) {
             }
             out.case(line, &o.obs, &o.oracle);
         }
+        ["C09.def", tree] => {
+            let t = match parse_sexp(tree) {
+                Some(t) => t,
+                None => {
+                    out.case(line, "bad-request", "SKIP:bad request");
+                    return;
+                }
+            };
+            let mut o = stmt::run_def(&t);
+            hist.total += 1;
+            hist.ctx.add("def");
+            count_nodes(&t, &mut hist.nodes, &mut hist.ops);
+            let k = if o.oracle == "ok" { "ok".to_string() } else { o.oracle.chars().take(48).collect() };
+            hist.outcome.add(&k);
+            if o.oracle.starts_with("FAIL") {
+                let kind = fail_kind(&o.oracle);
+                let key = format!("def {} {}", kind, t.show());
+                hist.classes.add(&key);
+                o.oracle = format!("{} min={}", o.oracle, key);
+            }
+            out.case(line, &o.obs, &o.oracle);
+        }
         ["C09.src", hexsrc] => {
             let text = match unhex(hexsrc).and_then(|b| String::from_utf8(b).ok()) {
                 Some(t) => t,
@@ -2533,6 +2555,19 @@ pub fn run(args: &Args, out: &mut Out) {
         }
     }
     out.stat(&st5.json("statement-trees"));
+    // stream 6: function and struct definitions of such programs as trees
+    let mut st6 = Stats::default();
+    let want = if thorough { 20000 } else { 2000 };
+    let mut made = 0;
+    while made < want {
+        let text = sg2.module();
+        for t in stmt::defs_of(&text) {
+            let line = format!("C09.def\t{}", t.show());
+            run_request(&line, out, &mut st6);
+            made += 1;
+        }
+    }
+    out.stat(&st6.json("definition-trees"));
     out.stat(&format!(
         "{{\"stream\":\"source-modules\",\"cases\":{},\"statement_kinds\":{},\"outcomes\":{},\"minimal_failing_shapes\":{}}}",
         st.total,
